@@ -78,7 +78,7 @@ class Reader:
         self.f = repo.function('_import_from_file', repo.rel('solver', 'fileIO.py'))
         it = Interp(repo)
         try:
-            self.effs, self.rv = it.run(self.f, {'instance_options': io_term(na, twopl)})
+            self.effs, self.rv = it.run(self.f, {self.f.params[-1]: io_term(na, twopl)})        # (filename, instance options)
         except Unknown as u:
             raise AnalysisError('_import_from_file outside the interpreted fragment: %s' % u)
         self.it = it
